@@ -14,7 +14,9 @@ CONFIGS = {
           ("c_dec_wt", dict(progs=[[A(-1), VAL], [W(1), VAL]], init={"V0": 1}, V0=1, MaxNow=1)),
           ("c_updown", dict(progs=[[A(1), A(-1), A(-1)], [W(), A(0)]], init={"V0": 1}, V0=1)),
           ("c_zero", dict(progs=[[W(), W(1)], [VAL, A(0)]], init={"V0": 0}, V0=0, MaxNow=1)),
-          ("c_2w", dict(progs=[[A(-1)], [W()], [W(1)]], init={"V0": 1}, V0=1, MaxNow=1))],
+          ("c_2w", dict(progs=[[A(-1)], [W()], [W(1)]], init={"V0": 1}, V0=1, MaxNow=1)),
+          # four threads: behaviours from TLC's simulation mode, every generated transition replayed once
+          ("c_big", dict(progs=[[A(-1), VAL], [A(-1), W()], [A(-1), W(1)], [W(), VAL]], init={"V0": 3}, V0=3, MaxNow=1, _sim=(12, 400)))],
     "t": [
           ("c_3dec", dict(progs=[[A(-1), VAL], [A(-1)], [A(-1), W()]], init={"V0": 3}, V0=3))],
 }
